@@ -1,6 +1,7 @@
 SPECIFICATION SchedSpec
 CONSTANTS Messages <- MCMessages
           AsCoded = TRUE
+          Fixed = FALSE
           Gated = TRUE
           Mode = "http"
           MaxMsgs = 1
